@@ -99,7 +99,9 @@ def classify(m, p, v):
 
 
 def classify_exc(spec, c, out):
-    return None
+    from vlib.outcome import F5_CYCLE, is_f5_cycle
+
+    return F5_CYCLE if is_f5_cycle(out) else None
 
 
 class Check:
